@@ -416,4 +416,37 @@ theorem commitQ_unique {c : Cfg} (hf : c.FewFaulty) {L : List Vote} (hL : LogInv
   · exact key h1 hq hq'
   · exact (key h1 hq' hq).symm
 
+-- ---------------------------------------------------------------- building concrete schedules
+
+
+/-- single steps of a schedule, for writing concrete schedules down -/
+theorem AReach.prevote {c : Cfg} {σ : AState} (h : AReach c σ) (p : Val) (w : Option Block)
+    (hp : c.honest p) (h1 : (σ.nodes p).pvDone = false)
+    (h2 : ∀ v, (σ.nodes p).lockedBlock = some v → w = some v) :
+    AReach c { nodes := upd σ.nodes p { (σ.nodes p) with pvDone := true },
+               log := σ.log ++ [⟨p, (σ.nodes p).height, (σ.nodes p).round, .prevote, w⟩] } :=
+  h.step (AStep.act σ p _ _ hp (AAct.prevote _ w h1 h2))
+
+theorem AReach.precommitBlock {c : Cfg} {σ : AState} (h : AReach c σ) (p : Val) (v : Block)
+    (hp : c.honest p) (h1 : (σ.nodes p).pcDone = false)
+    (h2 : polka c σ.log (σ.nodes p).height (σ.nodes p).round (some v)) :
+    AReach c { nodes := upd σ.nodes p { (σ.nodes p) with
+                 pcDone := true, lockedRound := (σ.nodes p).round, lockedBlock := some v },
+               log := σ.log ++ [⟨p, (σ.nodes p).height, (σ.nodes p).round, .precommit, some v⟩] } :=
+  h.step (AStep.act σ p _ _ hp (AAct.precommitBlock _ v h1 h2))
+
+theorem AReach.decide {c : Cfg} {σ : AState} (h : AReach c σ) (p : Val) (v : Block) (r : Nat)
+    (hp : c.honest p) (h2 : commitQ c σ.log (σ.nodes p).height r v) :
+    AReach c { nodes := upd σ.nodes p
+                 { height := (σ.nodes p).height + 1, round := 0, pvDone := false, pcDone := false,
+                   lockedRound := -1, lockedBlock := none,
+                   decided := ((σ.nodes p).height, v) :: (σ.nodes p).decided },
+               log := σ.log ++ [] } :=
+  h.step (AStep.act σ p _ _ hp (AAct.decide _ v r h2))
+
+theorem AReach.byz {c : Cfg} {σ : AState} (h : AReach c σ) (v : Vote) (hb : ¬ c.honest v.sender) :
+    AReach c { σ with log := σ.log ++ [v] } :=
+  h.step (AStep.byz σ v hb)
+
+
 end GnoVerif.C31
